@@ -3,6 +3,10 @@
 import json
 
 CLAIMS = {
+ "C09": dict(cat="model_checking", design="6 C09",
+  text="All script sets of 1..3 scripts over 33 variants each (valid with <=2 ordered use targets incl. a missing name, unparsable, check-failing) under ALL parse orders x ALL link orders of the loader's two map iterations, and 4-script sets (<=1 use each quick, all 33^4 thorough) under all 24 link orders — 1.5 million fresh ParseScript runs in the quick tier. The real driver is used unchanged except that its two range statements iterate a harness-chosen order (build-time overlay generated from the current sources). Verdicts must equal graph reachability (hence be order-independent), use calls must be bound to the accepted script objects, and error chains must be root cause + call sites with every entry inside the file it names. The unmodified map order is run 8x on a third of the 3-script sets to tie the seam to the real driver.",
+  note="If the overlay pattern no longer matches (refactored loader) the check says so and reports exhaustive:false. Names are opaque to the linker except through map order, which is controlled.",
+  tech="exhaustive enumeration of configurations x visit orders (controlled map iteration through a build overlay) on the real loader vs graph-reachability reference"),
  "C11": dict(cat="model_checking", design="6 C11",
   text="45 call templates of the 15 field-manipulating builtins x 5 key spellings x 6 subject situations (variable / field / tag / variable shadowing either / absent) x 13 subject values x 3 base points are run on the real engine and on reference builtins; the WHOLE canonical final point (so every other key is checked untouched), captured standard output, return values and read-backs and the error flag must agree. Complete product, about 39000 executions.",
   note="strings, regexp, net/url, fmt, encoding/json and spf13/cast are shared trusted base. Unspecified cells (cast of collections or non-numeric strings, rename onto an existing key, ...) are skipped and counted.",
@@ -80,7 +84,8 @@ def main():
      "setup_cmd":"./vcheck.sh build",
      "hooks":{"guard":"verif","enable":"go build -tags verif -overlay <generated by mc/overlay from the current /repo sources> (no hook is committed to /repo; see DESIGN.md section 7)",
        "baseline_off_cmd":"cd /repo && GOFLAGS=-mod=mod go test -vet=off -count=1 ./...","source_commits":[],"add_only":True},
-     "engines":[{"name":"vcheck","path":"mc/cmd/vcheck","serves_properties":sorted(CLAIMS),"kind_free_text":"bounded-exhaustive enumeration of inputs/programs/histories/schedules on the real code against a Go reference model; explicit-state search; workers sharded over 16 processes"}],
+     "engines":[{"name":"vcheck","path":"mc/cmd/vcheck","serves_properties":sorted(x for x in CLAIMS if x not in ("C09","C15","C16")),"kind_free_text":"bounded-exhaustive enumeration of inputs/programs/histories on the real code (plain build) against a Go reference model; explicit-state search; workers sharded over 16 processes"},
+       {"name":"vcheck-inst","path":"mc/cmd/vcheck (built with -tags verif -overlay from mc/cmd/mkoverlay)","serves_properties":sorted(x for x in CLAIMS if x in ("C09","C15","C16")),"kind_free_text":"same binary built with a generated overlay: controlled map iteration in the loader, sync.Pool shim with harness-chosen answers and scheduling points, pool accessors; cooperative scheduler / DFS explorer"}],
      "checks":[],
      "not_applicable":[]
     }
@@ -89,7 +94,7 @@ def main():
         if i in CLAIMS:
             c=CLAIMS[i]
             m["checks"].append({"property_id":i,"quick_cmd":f"./vcheck.sh {i} quick","thorough_cmd":f"./vcheck.sh {i} thorough","evidence_file":f"evidence/{i}.json",
-              "replay_cmd_template":"./vcheck.sh replay {path}","engine":"vcheck",
+              "replay_cmd_template":"./vcheck.sh replay {path}","engine":"vcheck-inst" if i in ("C09","C15","C16") else "vcheck",
               "level_claimed":{"category":c["cat"],"text":c["text"],"design_ref":c["design"]},"level_note":c["note"],"technique":c["tech"]})
         else:
             m["not_applicable"].append({"property_id":i,"reason":"check not built yet (work in progress, see DESIGN.md section 11)"})
